@@ -292,8 +292,8 @@ impl<'a> Sess<'a> {
         o
     }
     pub fn commit(&mut self, t: &mut Trace, i: usize) -> Obs {
-        // the model needs to know whether the save can succeed *now*
-        emit_fs_w_only(t, &self.xdg);
+        // the model needs to know what the outside world did to the files and whether the save can succeed *now*
+        emit_fs(t, &self.xdg);
         let o = self.imp.commit(i);
         let on = if o == Obs::Panic { false } else { self.imp.ongoing() };
         t.line(&format!("commit {} {}", self.id, i));
@@ -302,6 +302,7 @@ impl<'a> Sess<'a> {
             t.line(&format!("> U {} {}", if on { 1 } else { 0 }, f));
         }
         self.events.push(format!("commit {}", i));
+        self.last = Obs::Unit;
         o
     }
     pub fn finish(&mut self, t: &mut Trace) -> Obs {
@@ -310,6 +311,7 @@ impl<'a> Sess<'a> {
         t.line(&format!("finish {}", self.id));
         t.line(&format!("> {}", render_obs(&o, on)));
         self.events.push("finish".into());
+        self.last = Obs::Unit;
         o
     }
     pub fn update(&mut self, t: &mut Trace, layout: &str, opts: Opts) -> Obs {
@@ -329,7 +331,9 @@ impl<'a> Sess<'a> {
         let mut o = Obs::Unit;
         for c in text.chars() {
             let code = crate::keys::code_for_char(c).unwrap_or_else(|| panic!("untypeable char {:?}", c));
-            o = self.key(t, code, 0, 0);
+            // as a front-end does: pass the index currently selected in the list on display
+            let sel = match &self.last { Obs::Full { sel, cands, .. } if *sel < cands.len() => (*sel).min(255) as u8, _ => 0 };
+            o = self.key(t, code, 0, sel);
         }
         o
     }
